@@ -10,7 +10,7 @@ from __future__ import annotations
 
 import ast
 
-from .canon import local_by_value, local_stored_to, local_unpacked_from
+from .canon import local_by_value, local_stored_to, local_unpacked_from, loop_var_over
 
 
 def _u(e):
@@ -36,8 +36,18 @@ ROLES = {
         "key_len": local_unpacked_from("blk_header", 0),
         "record_len": local_unpacked_from("blk_header", 1),
     },
+    "molli/chem/structure.py:Structure.yield_from_mol2": {
+        "a": loop_var_over("block.atoms"),
+        "b": loop_var_over("block.bonds"),
+    },
     "molli/storage/ukvfile.py:UKVFile.put": {
         "header": local_by_value(lambda v: isinstance(v, ast.Call) and _u(v.func).endswith(".pack")),
         "record": local_by_value(lambda v: isinstance(v, ast.Call) and _u(v.func) == "UKVRecord"),
     },
+}
+
+
+# locals that merely name a place (`atom = res.atoms[i]`) are dissolved in these functions
+ALIASES = {
+    "molli/chem/structure.py:Structure.yield_from_mol2": lambda v: _u(v).startswith("res.atoms["),
 }
